@@ -437,6 +437,16 @@ mod listing {
     /// elements of each such array (under the identifier), its attributes (the attribute line keeps the name).
     fn only_quoted_array_names(k: &str, text: &str, aq: &[(String, String)], s1: &[String]) -> bool {
         let Some(lines) = logical_lines(text) else { return false };
+        // only the names that ARE arrays when the listing is taken (a later scalar definition replaces an array)
+        let aq: Vec<(String, String)> = aq
+            .iter()
+            .filter(|(name, _)| s1.iter().filter_map(|l| var_fields(l)).any(|f| f.0 == h(name) && f.2.starts_with("A:")))
+            .cloned()
+            .collect();
+        let aq = &aq[..];
+        if aq.is_empty() {
+            return false;
+        }
         let mut re = String::new();
         let mut replaced = vec![false; aq.len()];
         for l in &lines {
@@ -557,7 +567,7 @@ mod listing {
         }
         let text_of = |key: &str| texts[KINDS.iter().position(|k| k.0 == key).unwrap()];
         // arrays whose name the quoter quotes (known finding 6): (name, quoted spelling)
-        let aq_names: Vec<(String, String)> = case
+        let mut aq_names: Vec<(String, String)> = case
             .split_whitespace()
             .skip(1)
             .filter_map(|op| {
@@ -569,6 +579,9 @@ mod listing {
                 (n, q)
             })
             .collect();
+        // a name defined twice is one variable
+        aq_names.sort();
+        aq_names.dedup();
         // every failure, in the order of KINDS; `known` = explained completely by finding 6
         let mut failures: Vec<(String, bool)> = vec![];
         for (i, (key, k, _)) in KINDS.iter().enumerate() {
